@@ -102,12 +102,13 @@ type verifC30Step struct {
 	Tok    *verifC30Tok    `json:"tok"`
 	Prot   [][]string      `json:"prot"`
 	Now    int64           `json:"now"`
+	Ep     string          `json:"ep"`
 	Name   []string        `json:"name"`
 	Create bool            `json:"create"`
 	Old    *verifC30Metric `json:"old"`
 	New    *verifC30Metric `json:"new"`
 	Post   struct {
-		Impl    bool        `json:"impl"`
+		Impl    any         `json:"impl"` // Parse: "ok" | "rejected" | "healthcheck"; View/Edit: bool
 		Must    bool        `json:"must"`
 		Deny    []string    `json:"deny"`
 		Carried *verifC30AI `json:"carried"`
@@ -238,8 +239,9 @@ func verifC30Join(xs [][]string) []string {
 	return res
 }
 
-// verifC30Parse runs the real parseAccessToken; a panic counts as a rejection (noted).
-func verifC30Parse(ks *verifC30Keys, mode string, tk *verifC30Tok, prot []string, nowMs int64) (ai accessInfo, acc bool, note string) {
+// verifC30Parse runs the real requestHandler.init (parseAccessToken + the healthcheck fallback)
+// and returns the outcome "ok" | "rejected" | "healthcheck"; a panic counts as a rejection (noted).
+func verifC30Parse(ks *verifC30Keys, mode string, tk *verifC30Tok, prot []string, nowMs int64, ep string) (ai accessInfo, out string, note string) {
 	helper := vkuth.NewJWTHelper(ks.conf, verifC30App)
 	now := time.Unix(verifC30T0, 0).Add(time.Duration(nowMs) * time.Millisecond)
 	helper.SetNow(func() time.Time { return now })
@@ -249,15 +251,24 @@ func verifC30Parse(ks *verifC30Keys, mode string, tk *verifC30Tok, prot []string
 	}
 	defer func() {
 		if r := recover(); r != nil {
-			acc = false
+			ai, out = accessInfo{}, "rejected"
 			note = fmt.Sprintf("panic: %v", r)
 		}
 	}()
-	ai, err := parseAccessToken(helper, token, prot, mode == "local", mode == "insecure")
-	if err != nil {
-		return accessInfo{}, false, err.Error()
+	h := &requestHandler{Handler: &Handler{jwtHelper: helper}}
+	h.insecureMode, h.LocalMode, h.protectedMetricPrefixes = mode == "insecure", mode == "local", prot
+	h.endpointStat.endpoint = EndpointQuery
+	if ep == "healthcheck" {
+		h.endpointStat.endpoint = EndpointHealthcheck
 	}
-	return ai, true, ""
+	if err := h.init(token, "verif"); err != nil {
+		return accessInfo{}, "rejected", err.Error()
+	}
+	// the fallback identity is told apart from an accepted token by asking the parser itself
+	if _, err := parseAccessToken(helper, token, prot, mode == "local", mode == "insecure"); err != nil {
+		return h.accessInfo, "healthcheck", err.Error()
+	}
+	return h.accessInfo, "ok", ""
 }
 
 func verifC30Meta(m *verifC30Metric) format.MetricMetaValue {
@@ -355,15 +366,16 @@ func TestVerifC30Replay(t *testing.T) {
 		}
 		res.Replayed++
 		p := &beh[0]
-		ai, acc, note := verifC30Parse(ks, p.Mode, p.Tok, verifC30Join(p.Prot), p.Now)
+		ai, out, note := verifC30Parse(ks, p.Mode, p.Tok, verifC30Join(p.Prot), p.Now, p.Ep)
+		acc := out == "ok"
 		res.Steps++
 		if strings.HasPrefix(note, "panic") {
 			res.Count("parse_panics", 1)
 			res.Note("parse panicked (counted as rejection): %s; token %+v", note, *p.Tok)
 		}
 		tokenMode := p.Mode == "token" || p.Mode == "empty"
-		res.Seen(fmt.Sprintf("parse acc=%v deny=%v must=%v mode=%s", acc, p.Post.Deny, p.Post.Must, p.Mode))
-		if acc != p.Post.Impl {
+		res.Seen(fmt.Sprintf("parse out=%v deny=%v must=%v mode=%s", out, p.Post.Deny, p.Post.Must, p.Mode))
+		if out != p.Post.Impl {
 			res.Count("differs_from_transcription", 1)
 		}
 		if tokenMode {
@@ -391,10 +403,16 @@ func TestVerifC30Replay(t *testing.T) {
 				}
 			}
 		}
-		if !acc {
+		if out == "healthcheck" {
+			if p.Ep != "healthcheck" || len(verifC30NotCarried(&ai, &verifC30AI{ViewMetric: [][]string{{healthcheckMetric}}})) > 0 {
+				res.Mismatch(verifkit.Mismatch{Beh: beh[:1], Step: 0, Want: "no rights without an accepted token", Got: fmt.Sprintf("%+v", verifC30AIOf(&ai)), Sig: "HealthcheckFallback"})
+				return
+			}
+		}
+		if out == "rejected" {
 			return
 		}
-		if p.Mode == "token" {
+		if p.Mode == "token" && acc {
 			res.Sample(map[string]any{"token": verifC30Mint(ks, p.Tok), "now_ms": p.Now, "accepted": acc, "admin": ai.bitAdmin,
 				"view_prefix": verifC30Keys2(ai.bitViewPrefix), "edit_metric": verifC30Keys2(ai.bitEditMetric)})
 		}
@@ -414,7 +432,7 @@ func TestVerifC30Replay(t *testing.T) {
 			if granted != s.Post.Impl {
 				res.Count("differs_from_transcription", 1)
 			}
-			if tokenMode && granted && len(s.Post.Deny) > 0 {
+			if granted && len(s.Post.Deny) > 0 {
 				res.Mismatch(verifkit.Mismatch{Beh: beh, Step: i, Want: "denied: " + strings.Join(s.Post.Deny, ","), Got: "granted", Sig: s.Post.Deny[0]})
 				return
 			}
@@ -678,7 +696,7 @@ func TestVerifC30Random(t *testing.T) {
 	rnd := verifkit.Rand(3030)
 	ks := verifC30NewKeys(t, rnd)
 	tr := verifkit.NewTrace()
-	tr.Emit("Config", "rc", verifC30CharsAll(verifC30RemoteConfig), "app", verifC30App)
+	tr.Emit("Config", "rc", verifC30CharsAll(verifC30RemoteConfig), "app", verifC30App, "health", verifC30Chars(healthcheckMetric))
 	n := verifkit.EnvInt("VERIF_NSESSIONS", 1000)
 	for i := 0; i < n; i++ {
 		g := &verifC30Gen{rnd: rnd}
@@ -703,7 +721,12 @@ func TestVerifC30Random(t *testing.T) {
 		}
 		tk := g.token()
 		nowMs := int64(rnd.Intn(2) * rnd.Intn(1000))
-		ai, acc, note := verifC30Parse(ks, mode, tk, prot, nowMs)
+		ep := "query"
+		if rnd.Intn(12) == 0 {
+			ep = "healthcheck"
+		}
+		ai, out, note := verifC30Parse(ks, mode, tk, prot, nowMs, ep)
+		acc := out == "ok"
 		if strings.HasPrefix(note, "panic") {
 			res.Count("parse_panics", 1)
 			res.Note("parse panicked (counted as rejection): %s", note)
@@ -712,20 +735,24 @@ func TestVerifC30Random(t *testing.T) {
 		if protC == nil {
 			protC = [][]string{}
 		}
-		tr.Emit("Parse", "mode", mode, "tok", tk, "prot", protC, "now", nowMs, "acc", acc, "ai", verifC30AIOf(&ai),
+		tr.Emit("Parse", "mode", mode, "tok", tk, "prot", protC, "now", nowMs, "ep", ep, "out", out, "ai", verifC30AIOf(&ai),
 			"user", ai.user, "service", ai.service)
 		res.Replayed++
 		res.Steps++
-		res.Seen(fmt.Sprintf("parse %s acc=%v", mode, acc))
+		res.Seen(fmt.Sprintf("parse %s %s", mode, out))
 		if acc {
 			res.Count("accepted", 1)
-		} else {
+		}
+		if out == "rejected" {
 			continue
 		}
 		for j, k := 0, 1+rnd.Intn(6); j < k; j++ {
 			res.Steps++
 			if rnd.Intn(2) == 0 {
 				name := g.name()
+				if out == "healthcheck" && rnd.Intn(2) == 0 {
+					name = healthcheckMetric
+				}
 				granted := verifC30View(&ai, name)
 				tr.Emit("View", "name", verifC30Chars(name), "granted", granted)
 				res.Seen(fmt.Sprintf("view %v", granted))
